@@ -212,12 +212,21 @@ def ob_wnaf_code(bits, window, mode):
                     raise Inconclusive("solver unknown on %s (%s)" % (nm, mode))
                 if r == z3.sat:
                     m = s.model()
+                    # prefer a model whose state is reached by a real scalar (c * 2^i fits the width), so that it can be replayed natively
+                    s.push()
+                    Wd = bits + 64
+                    s.add(z3.LShR(z3.ZeroExt(64, C), z3.BitVecVal(bits, Wd) - z3.ZeroExt(Wd - 64, eir.as_bv(Iv, 64))) == 0)
+                    if s.check() == z3.sat:
+                        m = s.model()
+                    s.pop()
                     cv = m.eval(C, model_completion=True).as_long()
                     iv = m.eval(Iv, model_completion=True).as_long()
+                    # the scalar c * 2^i reaches exactly this state after i zero digits (when it fits the width): a native witness
+                    wit = cv << iv if (cv << iv) < (1 << bits) else None
                     raise Violation("wnaf<%d>:%s:%s" % (bits, nm, mode),
                                     "WnafScalar<%d,%d>::from_bigint, iteration with i=%d, c=%#x: %s" % (bits, window, iv, cv, msg),
-                                    {"bits": bits, "window": window, "i": iv, "c": hex(cv), "scalar": hex(cv) if mode == "first" else None,
-                                     "reachable_directly": mode == "first"})
+                                    {"bits": bits, "window": window, "i": iv, "c": hex(cv), "scalar": hex(wit) if wit is not None else None,
+                                     "reachable_directly": wit is not None})
             finally:
                 s.pop()
     if npaths < 3:
@@ -350,7 +359,7 @@ def replay_wnaf(res):
     """native replay: multiply_wnaf(G1 generator, scalar) against multiply_doubleadd for the model's scalar (only for counterexamples whose
     state is that of the first iteration, c = scalar; models of later iterations need not be reachable)"""
     ce = res.counterexample or {}
-    if not ce.get("reachable_directly") or ce.get("bits") not in (128, 256, 512):
+    if not ce.get("reachable_directly") or ce.get("bits") not in (64, 128, 256, 512):
         return None
     from engine import replay
     out = replay.run(["wnafcmp %d %s" % (ce["bits"], ce["scalar"][2:])])
